@@ -350,12 +350,24 @@ class RuleTable:
             if _contains_reg_call(fn) and self._depth < 3:
                 a = fn.args
                 params = [p.arg for p in a.posonlyargs + a.args]
-                if a.vararg or a.kwarg or a.kwonlyargs or len(c.args) > len(params) or any(isinstance(x, ast.Starred) for x in c.args):
+                cargs = []
+                for x in c.args:
+                    if isinstance(x, ast.Starred):
+                        # helper(*row) with row a literal tuple (a row of a registration table): its elements
+                        xv = subst(x.value, env)
+                        xv = xv.expr if isinstance(xv, _Foreign) and xv.mod is m else xv
+                        if isinstance(xv, (ast.Tuple, ast.List)) and not any(isinstance(e_, ast.Starred) for e_ in xv.elts):
+                            cargs.extend(xv.elts)
+                        else:
+                            cargs.append(x)
+                    else:
+                        cargs.append(x)
+                if a.vararg or a.kwarg or a.kwonlyargs or len(cargs) > len(params) or any(isinstance(x, ast.Starred) for x in cargs):
                     self.undecided.append((m, c, f"registration helper {fref.qual} called with an unsupported signature"))
                     return
                 env2 = {}
                 ok = True
-                for p_, x in zip(params, c.args):
+                for p_, x in zip(params, cargs):
                     v = subst(x, env)
                     env2[p_] = v if (fref.mod is m or isinstance(v, _Foreign)) else _Foreign(m, v)
                 for k in c.keywords:
@@ -399,6 +411,24 @@ class RuleTable:
             return None
         if isinstance(v, (ast.Tuple, ast.List)):
             return None if any(isinstance(e, ast.Starred) for e in v.elts) else list(v.elts)
+        if isinstance(v, ast.Call) and not any(isinstance(a, ast.Starred) for a in v.args):
+            # *factory(...): a module-level function every return of which is a tuple display of the same length n
+            # contributes factory(...)[0] .. factory(...)[n-1]
+            fr = self._resolve(m, v.func, env)
+            if fr is not None and fr.kind == "repo" and fr.okind == "def" and isinstance(fr.node, ast.FunctionDef) and not fr.node.decorator_list:
+                rets = [x for x in ast.walk(fr.node) if isinstance(x, ast.Return) and _owner_def(x, fr.node)]
+                lens = {len(x.value.elts) if isinstance(x.value, (ast.Tuple, ast.List)) and not any(isinstance(e_, ast.Starred) for e_ in x.value.elts) else None for x in rets}
+                if len(lens) == 1 and None not in lens:
+                    k = lens.pop()
+                    if 0 < k <= 16:
+                        out = []
+                        for i in range(k):
+                            sub_ = ast.Subscript(value=v, slice=ast.Constant(value=i), ctx=ast.Load())
+                            ast.copy_location(sub_, v)
+                            ast.fix_missing_locations(sub_)
+                            out.append(sub_)
+                        return out
+            return None
         if isinstance(v, ast.BinOp) and isinstance(v.op, ast.Mult):
             # *(("same",) * 2): repetition of a literal sequence by a constant
             seq, k = (v.left, v.right) if isinstance(v.left, (ast.Tuple, ast.List)) else (v.right, v.left)
@@ -593,6 +623,14 @@ def _const_fold_str(e):
     except Exception:
         return e
     return e
+
+
+def _owner_def(node, fn):
+    """is `fn` the innermost function definition around `node`?"""
+    p = getattr(node, "_parent", None)
+    while p is not None and not isinstance(p, (ast.FunctionDef, ast.AsyncFunctionDef, ast.Lambda)):
+        p = getattr(p, "_parent", None)
+    return p is fn
 
 
 def _mentions_version(test):
